@@ -50,6 +50,7 @@ def deepcopy(I, v, memo=None):
             n = VObj(x.cls)
             memo[id(x)] = n
             n.fields = rec(x.fields)
+            n.fields.owner = n
             if x.dictdata is not None:
                 n.dictdata = rec(x.dictdata)
             if x.listdata is not None:
@@ -78,6 +79,7 @@ def shallow_copy(I, v):
             return I.call(cp, [v], {})
         n = VObj(v.cls)
         n.fields = VDict(v.fields.d)
+        n.fields.owner = n
         if v.dictdata is not None:
             n.dictdata = VDict(v.dictdata.d)
         if v.listdata is not None:
